@@ -11,7 +11,7 @@
 //                                     max_width indent_width newline_style=<nl:auto|unix|windows>, [build]
 //                                     strip_comments=<strip:0|1>:
 //                                     OK <analyzer-errors> <hex-sv> <hex-map-json>      | ERR (parse error)
-//                                     APANIC (analyzer panicked) | EPANIC <analyzer-errors> (emitter panicked)
+//                                     APANIC (analyzer panicked) | EPANIC <analyzer-errors> <file:line> <msg> (emitter panicked)
 //   M <nl> <hex-text>                 veryl_migrator: old-grammar Parser + Migrator::migrate:
 //                                     OK <hex-migrated-text>                            | ERR <msg> (old parser rejects)
 //   O <hex-text>                      old-grammar parse; dump what the Migrator's walker meets, in order:
@@ -156,7 +156,17 @@ fn do_emit(m: &veryl_metadata::Metadata, text: &str) -> String {
     }));
     let (sv, map) = match emitted {
         Ok(x) => x,
-        Err(_) => return format!("EPANIC {nerr}"),
+        Err(e) => {
+            let msg = e
+                .downcast_ref::<String>()
+                .cloned()
+                .or_else(|| e.downcast_ref::<&str>().map(|s| s.to_string()))
+                .unwrap_or_default();
+            let msg: String = msg.chars().filter(|c| !c.is_control()).take(200).collect();
+            let at = LAST_PANIC_AT.lock().map(|g| g.clone()).unwrap_or_default();
+            let at = if at.is_empty() { "?".to_string() } else { at.replace(' ', "_") };
+            return format!("EPANIC {nerr} {at} {msg}");
+        }
     };
     format!("OK {} {} {}", nerr, hex(&sv), hex(&map))
 }
@@ -244,15 +254,36 @@ fn run_case(line: &str) -> String {
             f[3].parse().unwrap(),
             &unhex(f[4]),
         ),
-        "E" => do_emit(&metadata(f[1], f[2], f[3], f[4], f[5]), &unhex(f[6])),
+        "E" => {
+            // every design is analysed and emitted on a fresh thread: veryl's global tables are
+            // thread-local, so no state (e.g. left behind by a crash) leaks between cases
+            let o: Vec<String> = f[1..6].iter().map(|x| x.to_string()).collect();
+            let text = unhex(f[6]);
+            let h = std::thread::Builder::new()
+                .stack_size(256 * 1024 * 1024)
+                .spawn(move || do_emit(&metadata(&o[0], &o[1], &o[2], &o[3], &o[4]), &text))
+                .unwrap();
+            h.join().unwrap_or_else(|_| "APANIC".to_string())
+        }
         "M" => do_migrate(f[1], &unhex(f[2])),
         "O" => do_old_tokens(&unhex(f[1])),
         x => panic!("bad mode {x}"),
     }
 }
 
+static LAST_PANIC_AT: std::sync::Mutex<String> = std::sync::Mutex::new(String::new());
+
 fn main() {
-    std::panic::set_hook(Box::new(|_| {}));
+    // silent, but remember where the last panic was raised (file:line) so that a crash can be
+    // attributed to a crate
+    std::panic::set_hook(Box::new(|info| {
+        if let Ok(mut g) = LAST_PANIC_AT.lock() {
+            *g = info
+                .location()
+                .map(|l| format!("{}:{}", l.file(), l.line()))
+                .unwrap_or_default();
+        }
+    }));
     let stdin = io::stdin();
     let stdout = io::stdout();
     let mut out = io::BufWriter::new(stdout.lock());
